@@ -169,6 +169,22 @@ pub fn gen_cases<F: PrimeField>(seed: u64, tier: &str, curve_idx: u64) -> Vec<(S
             (format!("lc_{}_{}", curve_idx, k), gen_tree::<F>(&mut rng, depth))
         })
         .collect();
+    // operands with no terms at all on either side of every binary operator
+    for j in 0..8 {
+        let e = || Box::new(Tree::Terms(vec![]));
+        let t = Box::new(gen_tree::<F>(&mut rng, 1 + j % 3));
+        let tree = match j {
+            0 => Tree::Sub(e(), t),
+            1 => Tree::Add(e(), t),
+            2 => Tree::Sub(t, e()),
+            3 => Tree::Add(t, e()),
+            4 => Tree::Sub(Box::new(Tree::Sub(e(), t)), Box::new(Tree::Const(edge_scalar(&mut rng)))),
+            5 => Tree::Neg(Box::new(Tree::Sub(e(), t))),
+            6 => Tree::VSub(rand_var(&mut rng), e()),
+            _ => Tree::Scale(Box::new(Tree::Sub(e(), e())), edge_scalar(&mut rng)),
+        };
+        out.push((format!("lc_{}_empty{}", curve_idx, j), tree));
+    }
     // long combinations (running sums / differences with repeated variables and repeated constants):
     // sizes around powers of two and beyond, where size-triggered code paths would sit
     let sizes: Vec<usize> = if tier == "thorough" { vec![33, 64, 65, 127, 128, 129, 130, 200, 257, 300, 513] } else { vec![64, 129, 140, 260] };
